@@ -803,6 +803,20 @@ func c19Close(c *Ctx) {
 						}
 					}
 				}
+				// every return of Watch runs that defer: an early return placed before it (a context that is
+				// already cancelled, an unsupported platform) ends watching with every channel left open
+				if deferInstr != nil {
+					for _, wb := range watch.Blocks {
+						if len(wb.Instrs) == 0 || wb == watch.Recover {
+							continue
+						}
+						if _, isRet := wb.Instrs[len(wb.Instrs)-1].(*ssa.Return); isRet && !deferInstr.Block().Dominates(wb) {
+							c.R.Fail("R-C19-4", c.fname(watch)+":closer-deferred-before-every-return", c.fname(watch), c.pos(wb.Instrs[len(wb.Instrs)-1].Pos()),
+								"a return of Watch is not preceded by the defer of the closing function", "the closing function is deferred before any return of Watch",
+								"watching ends without closing the subscriber channels (and later subscribers get channels that never close)")
+						}
+					}
+				}
 				// closed channels are elements of the subscription map (triple range over Watcher.m)
 				c.R.Check(okPlace && deferred && guarded, "R-C19-4", c.fname(fn)+":close-subscriber-channel", c.fname(fn), c.pos(call.Pos()),
 					fmt.Sprintf("in deferred closure of Watch=%v, write lock held=%v, single-use guard dominates defer=%v", deferred, okPlace, guarded),
